@@ -7,6 +7,7 @@ import (
 	"fmt"
 	"io"
 	"strings"
+	_ "verif/h/duoc"
 
 	"github.com/biogo/biogo/alphabet"
 	"github.com/biogo/biogo/feat"
